@@ -4,7 +4,7 @@
 set -u
 ID="$1"; PATCH="$2"; DEMO="$3"; OUT="$4"
 WT=/tmp/cs/wt-$ID-$$
-export CARGO_NET_OFFLINE=true CARGO_TARGET_DIR=/tmp/cs/target
+export CARGO_NET_OFFLINE=true CARGO_TARGET_DIR="${CS_TARGET:-/tmp/cs/target}"
 mkdir -p /tmp/cs
 git -C /repo worktree add --detach "$WT" HEAD >/dev/null 2>&1 || { echo '{"error":"worktree"}' >"$OUT"; exit 1; }
 cd "$WT"
